@@ -4,6 +4,7 @@ import (
 	"fmt"
 	"os"
 	"strings"
+	"voicheck/report"
 
 	"voicheck/edt"
 	"voicheck/load"
@@ -75,4 +76,19 @@ func DumpMod(cfg, substr string) {
 		s := m.Sum[fn]
 		fmt.Printf("%s reads=%v writes=%v returns=%v globals=%v\n", load.FuncName(fn), s.Reads, s.Writes, s.Returns, s.WritesGlobals)
 	}
+}
+
+// DumpInputWrites lists the exported functions that may write a non-receiver parameter (discovery for INPUT-readonly).
+func DumpInputWrites(cfg string) {
+	p, err := load.Load(cfg, load.Opts{SSA: true})
+	if err != nil {
+		fmt.Println(err)
+		os.Exit(2)
+	}
+	r := report.New("XINP", "quick", 0)
+	st := checkInputReadonly(p, r.Rule("INPUT-readonly", "", 0), true)
+	for _, l := range st["discovered"].([]string) {
+		fmt.Println(l)
+	}
+	fmt.Println(st["exported functions"], st["pointer-like parameters"])
 }
